@@ -21,6 +21,6 @@ def check(ctx, rep):
         return
     F.rule_value_display(fm, rep, 'R4')
     F.rule_format(fm, rep, 'R4f', scope='values')
-    F.rule_setters(fm, rep, 'R4s')
+    F.rule_setters(fm, rep, 'R4s', only=('rate', 'ts'))
     K.rule_rejection(fm, rep, 'R5')
     K.rule_try_send(fm, rep, 'R5t')
